@@ -7,7 +7,7 @@ PROP = "C08"
 def run(tier, seed, t0):
     return _sess.run_session_check(
         PROP, tier, seed, t0,
-        families=[("connclose", 500, 8000), ("consumer", 100, 1500), ("close_slow", 6, 48)],
+        families=[("connclose", 500, 8000), ("consumer", 100, 1500), ("close_slow", 6, 48), ("mixed", 150, 2000)],
         mc_jobs=[("MC_Conn_close_q.cfg", None, "quick"), ("MC_Conn_close.cfg", None, "thorough"),
                  ("MC_Conn_close_bug.cfg", "SealedShrinks", None)],
         rule="session states (1-3 channels, consumers with deliveries, calls in flight with withheld replies, queued "
@@ -19,6 +19,9 @@ def run(tier, seed, t0):
              "the close point; distinct = distinct step lists",
         nontrivial=lambda s: any(x.get("do") == "consume" or x.get("async") for x in s["steps"]),
         assumptions=_sess.COMMON_ASSUMPTIONS + [
+            "plus 'mixed' sessions: seeded interleavings of everything at once (RPCs, nowait calls, multi-frame publishes at "
+            "frame_max 4096, consumers, listeners, withheld replies, server deliveries/confirms/returns/cancels/channel closes, "
+            "transport stalls, read and write segmentation)",
             "a server that keeps sending after its own Close, or drops the socket before reading CloseOk in the "
             "server-initiated direction, is not generated (outside the property's quantifier)"])
 
